@@ -96,7 +96,9 @@ pub fn literal(sym: &str) -> Result<String, String> {
         "i64" => int_sym!(i64, s)?.to_string(), "isize" => int_sym!(isize, s)?.to_string(),
         "u8" => int_sym!(u8, s)?.to_string(), "u16" => int_sym!(u16, s)?.to_string(), "u32" => int_sym!(u32, s)?.to_string(),
         "u64" => int_sym!(u64, s)?.to_string(), "usize" => int_sym!(usize, s)?.to_string(),
-        "f32" => f32_sym(s)?.to_string(), "f64" => f64_sym(s)?.to_string(),
+        // ("=<text>": the decimal text itself goes on the wire, not the shortest rendering of the float it denotes)
+        "f32" => if let Some(t) = s.strip_prefix('=') { f32_sym(s)?; t.to_string() } else { f32_sym(s)?.to_string() },
+        "f64" => if let Some(t) = s.strip_prefix('=') { f64_sym(s)?; t.to_string() } else { f64_sym(s)?.to_string() },
         _ => return Err(format!("bad symbol kind {sym:?}")),
     })
 }
@@ -383,7 +385,20 @@ pub fn run(scn: &Value) -> Value {
         }
         "dec" => {
             let text = match text_of(scn, &mut cz) { Ok(t) => t, Err(e) => return tool(e) };
-            dispatch!(ty, dec(&text, util::s(&scn["ctx"])))
+            let mut obs: Value = dispatch!(ty, dec(&text, util::s(&scn["ctx"])));
+            // a float given as a long decimal text ("f32:=<text>"): the canonical rendering of the decoded float is reported as that text exactly
+            // when the decoded float is the one nearest to the text (`str::parse` of the standard library rounds correctly)
+            for pr in util::arr(&scn["pairs"]) {
+                let (k, v) = (util::arr(&pr["k"]), util::arr(&pr["v"]));
+                if k.len() != 1 || v.len() != 1 { continue }
+                let (Some(name), Some((kind, sym))) = (util::s(&k[0]["s"]).strip_prefix("name:"), util::s(&v[0]["s"]).split_once(":=")) else { continue };
+                let want = match kind { "f32" => sym.parse::<f32>().ok().map(pf32), "f64" => sym.parse::<f64>().ok().map(pf64), _ => None };
+                let Some(want) = want else { continue };
+                if let Some(vs) = obs["vout"].as_array_mut() {
+                    for e in vs.iter_mut() { if e["n"] == cps(name) && e["v"] == json!([cps(&want)]) { e["v"] = json!([cps(sym)]) } }
+                }
+            }
+            obs
         }
         "iter" => {
             let text = match text_of(scn, &mut cz) { Ok(t) => t, Err(e) => return tool(e) };
